@@ -3,6 +3,9 @@
 //@ must_verify AssertCollector::new AssertCollector::record_assert_result lemma_entries_push lemma_failures_all_ok
 //@ include prelude/head.rs
 
+// C13, the collector: `AssertCollector::{new, record_assert_result}` (build/mod.rs) verbatim.
+// Everything (struct, abstract view, contracts, mutants) lives in prelude/collector_model.rs because the units
+// assert_hook and verdict verify the same two functions again underneath their own code.
 verus! {
 //@ include prelude/core.rs
 //@ include prelude/collector_model.rs
